@@ -105,6 +105,28 @@ def build(model, ranks=None, plain=False, default_resource_ids=False, share_id_o
     for mj in model.get("teams", []):
         workers = []
         for wj in mj.get("workers", []):
+            if model.get("worker_copies"):
+                # a team built from shallow copies of one template worker, every setting then given per worker (the logs
+                # are not settings: the copies share the template's empty log lists until the first initialisation)
+                import copy as _copy
+                if "_tmpl" not in model.get("_build_cache", {}):
+                    model.setdefault("_build_cache", {})["_tmpl"] = M.bw.BaseWorker("template")
+                w_ = _copy.copy(model["_build_cache"]["_tmpl"])
+                w_.name = wj.get("name", wj["id"])
+                w_.ID = wj["id"]
+                w_.team_id = None
+                w_.cost_per_time = wj.get("cost", 0.0)
+                w_.solo_working = bool(wj.get("solo", False))
+                w_.workamount_skill_mean_map = dict(wj.get("skills", {}))
+                w_.workamount_skill_sd_map = dict(wj.get("sd", {}))
+                w_.facility_skill_map = dict(wj.get("fskills", {}))
+                w_.absence_time_list = list(wj.get("abs", []))
+                w_.main_workplace_id = "".join(list(wj["mainwp"])) if wj.get("mainwp") is not None else None
+                w_.assigned_task_list = []
+                w_.quality_skill_mean_map = {}
+                w_.quality_skill_sd_map = {}
+                workers.append(w_)
+                continue
             if model.get("assign_style"):
                 # the idiom of the library's own tests: construct with defaults, then fill the skill map item by item
                 w_ = M.bw.BaseWorker(wj.get("name", wj["id"]), ID=(None if default_resource_ids else wj["id"]),
@@ -205,6 +227,7 @@ def build(model, ranks=None, plain=False, default_resource_ids=False, share_id_o
         project.workflow.extend_child_task_list([t for t in listed if not any(t is x for x in project.workflow.task_list)])
     else:
         project.workflow.extend_child_task_list(listed)
+    model.pop("_build_cache", None)
     listed_now = list(project.workflow.task_list)
     if len(listed_now) != len(tasks) or any(not any(t is x for x in listed_now) for t in tasks):
         missing = [t.ID for t in tasks if not any(t is x for x in listed_now)]
